@@ -80,6 +80,8 @@ structure Store where
   okMap : Option Mapping := none        -- the mapping of the activation that succeeded
   revDone : Bool := false               -- a revocation succeeded
   pending : Option Mapping := none      -- created, its activation not yet finished
+  -- claim keys of OTHER spellings of the code (the claim key is the raw string of the request)
+  oclaims : List Nat := []
 deriving DecidableEq, Repr
 
 structure Thread where
@@ -92,6 +94,10 @@ structure Thread where
   m : Option Mapping := none            -- the mapping this activation created
   del : Bool := false                   -- Update found the period over: it deletes the record instead of writing it
   res : Option Res := none
+  /-- How the request spells the code: 0 = exactly the generated string; n ≠ 0 = another string (upper case,
+  surrounding blanks, …).  Claim key and record key are both the raw string, so a request with another
+  spelling claims another key and finds no record. -/
+  spell : Nat := 0
 deriving DecidableEq, Repr
 
 /-- cloudutils.ParseListenAddress on the harness table ["", "0.0.0.0:9001", "127.0.0.1:9002", "no-port-here", "0.0.0.0:70000"]. -/
@@ -142,8 +148,26 @@ def getStepR (v : Variant) (p : Params) (st : Store) (t : Thread) : Store × Thr
   else if st.code.IsActivated || st.code.IsRevoked then (st, fin v t .internal)
   else (st, { t with pc := .revUpd, loc := { st.code with IsRevoked := true }, del := decide (p.expAt ≤ st.now) })
 
-/-- One phase of thread `i`. -/
-def tstep (v : Variant) (p : Params) (st : Store) (i : Nat) (t : Thread) : Store × Thread :=
+/-- One phase of a request that spells the code differently (`t.spell ≠ 0`): it claims the key of ITS string,
+looks up the record under ITS string (there is none), releases its claim.  It never touches the code's record,
+its claim or the mappings. -/
+def tstepO (v : Variant) (st : Store) (t : Thread) : Store × Thread :=
+  match t.pc with
+  | .start =>
+    if t.kind = .activate && (t.listener = 0 || t.laddr = 0) then (st, { t with pc := .done, res := some .missing })
+    else if v = .repaired then
+      if t.fault = .claim then (st, { t with pc := .done, res := some .storage })
+      else if st.oclaims.contains t.spell then (st, { t with pc := .done, res := some .busy })
+      else ({ st with oclaims := t.spell :: st.oclaims }, { t with pc := .claimed })
+    else (st, fin v t (if t.fault = .get then .storage else .notfound))
+  | .claimed => (st, fin v t (if t.fault = .get then .storage else .notfound))
+  | .releasing =>
+    if t.fault = .release then (st, { t with pc := .done })
+    else ({ st with oclaims := st.oclaims.filter (· != t.spell) }, { t with pc := .done })
+  | _ => (st, { t with pc := .done })
+
+/-- One phase of thread `i` that spells the code as generated. -/
+def tstepMain (v : Variant) (p : Params) (st : Store) (i : Nat) (t : Thread) : Store × Thread :=
   match t.kind, t.pc with
   | .activate, .start =>
     if t.listener = 0 || t.laddr = 0 then (st, { t with pc := .done, res := some .missing })
@@ -184,6 +208,10 @@ def tstep (v : Variant) (p : Params) (st : Store) (i : Nat) (t : Thread) : Store
   | _, .releasing =>
     if t.fault = .release then (st, { t with pc := .done }) else ({ st with claim := none }, { t with pc := .done })
   | _, .done => (st, t)
+
+/-- One phase of thread `i`. -/
+def tstep (v : Variant) (p : Params) (st : Store) (i : Nat) (t : Thread) : Store × Thread :=
+  if t.spell = 0 then tstepMain v p st i t else tstepO v st t
 
 inductive Ev where
   | create            -- CreateConnectionCode stores the code (a second one concerns another code: no effect)
